@@ -218,7 +218,37 @@ Example C14_hammer_rejects_torn :
   /\ C14_hammer_ok c14_me c14_setup ws [rd 50%N 49%N] = false.
 Proof. vm_compute. split; reflexivity. Qed.
 
+(* the many-writers gate ("nihammer" cases).  In EVERY sequential order of NickInfo n / GetNick n
+   calls on a tracked nick: a NickInfo returns what it returns from the start state — a snapshot
+   carrying its own three strings — and a GetNick returns the value written by the last NickInfo
+   before it, else the start value.  So a returned snapshot whose three strings stem from two
+   calls has no sequential explanation; [C14_ni_ok] checks exactly these consequences plus their
+   compatibility with the invoke/return stamps. *)
+Theorem C14_ni_sequential : forall s0 n a0 ops, ts_nicks s0 !! n = Some a0 ->
+  Forall (fun o => ni_shape n o = true) ops -> snd (sp_run s0 ops) = ni_expect s0 s0 ops.
+Proof. exact ni_sequential. Qed.
+Theorem C14_ni_result_own : forall s n a i h r, ts_nicks s !! n = Some a ->
+  exists sn, snd (sp_NickInfo s n i h r) = Some sn /\ sn_nick sn = n /\ sn_ident sn = i /\ sn_host sn = h /\ sn_name sn = r.
+Proof. exact ni_result_own. Qed.
+(* two overlapping NickInfo calls and a later GetNick: either call's value is accepted for the
+   read, a snapshot mixing the two is rejected — as a NickInfo result and as a GetNick result *)
+Example C14_ni_rejects_mixed :
+  let snap i h r := [[78%N]; c14_me; i; h; r; []; [49%N]; c14_x; []] in
+  let w1 := LinCheck.Build_hcall op (list bytes) (ONickInfo c14_me [49%N] [49%N] [49%N]) (snap [49%N] [49%N] [49%N]) 1 4 in
+  let w2 := LinCheck.Build_hcall op (list bytes) (ONickInfo c14_me [50%N] [50%N] [50%N]) (snap [50%N] [50%N] [50%N]) 2 3 in
+  let w2bad := LinCheck.Build_hcall op (list bytes) (ONickInfo c14_me [50%N] [50%N] [50%N]) (snap [50%N] [49%N] [50%N]) 2 3 in
+  let g i h r := LinCheck.Build_hcall op (list bytes) (OGetNick c14_me) (snap i h r) 5 6 in
+  C14_ni_ok c14_me c14_setup c14_me [w1; w2; g [49%N] [49%N] [49%N]] = true
+  /\ C14_ni_ok c14_me c14_setup c14_me [w1; w2; g [50%N] [50%N] [50%N]] = true
+  /\ C14_ni_ok c14_me c14_setup c14_me [w1; w2; g [49%N] [50%N] [49%N]] = false
+  /\ C14_ni_ok c14_me c14_setup c14_me [w1; w2bad; g [49%N] [49%N] [49%N]] = false
+  /\ C14_ni_ok c14_me c14_setup c14_me [w1; w2; g [] [] []] = false.
+Proof. vm_compute. repeat split; reflexivity. Qed.
+
 Print Assumptions tie_C14.
+Print Assumptions C14_ni_sequential.
+Print Assumptions C14_ni_result_own.
+Print Assumptions C14_ni_rejects_mixed.
 Print Assumptions C14_hammer_ok_says.
 Print Assumptions C14_hammer_rejects_torn.
 Print Assumptions C14_fresh.
